@@ -20,8 +20,8 @@
 #include <unifex/receiver_concepts.hpp>
 #include <unifex/sender_concepts.hpp>
 #include <unifex/stop_token_concepts.hpp>
-
 #include <unifex/detail/verif_hooks.hpp>
+
 #include <unifex/detail/prologue.hpp>
 
 #include <atomic>
@@ -89,6 +89,7 @@ struct _op {
       // stack-local sync_complete flag lets us detect this without
       // touching any member.
       UNIFEX_VERIF_YIELD("race.c_chk");
+      UNIFEX_VERIF_YIELD("event.canc.started");
       if (sync_complete.load(std::memory_order_acquire)) {
         return;
       }
